@@ -12,6 +12,7 @@ class Spec(c01.Spec):
         {'label': 'acyclic-empty-env', 'family': 'well'},
         {'label': 'acyclic-malformed', 'family': 'malformed'},
         {'label': 'acyclic-unmergeable', 'family': 'unmergeable'},
+        {'label': 'tasks-calling-sys-exit', 'family': 'exiting'},
         {'label': 'cyclic', 'family': 'well', 'cyclic': True},
         {'label': 'initial-env', 'family': 'well', 'init_env': True},
         {'label': 'initial-env-malformed', 'family': 'malformed',
